@@ -223,8 +223,8 @@ def expandX (tc : TestCase) : Nat → List CRow → Res IterErr (List CRow)
     match lastInputX tc top.entries with
     | none => .ok (top :: rest)
     | some i =>
-      expandX tc f ({ top with entries := top.entries.set i (.num 0) } ::
-                    { top with entries := top.entries.set i (.num 1) } :: rest)
+      expandX tc f ({ top with entries := top.entries.set i (.num 0), xcols := i :: top.xcols } ::
+                    { top with entries := top.entries.set i (.num 1), xcols := i :: top.xcols } :: rest)
 
 def hasInputCFrom (tc : TestCase) : List REntry → Nat → Bool
   | [], _ => false
@@ -251,8 +251,8 @@ def expandC (tc : TestCase) : List CRow → Res IterErr (List CRow)
     if !(hasInputCFrom tc top.entries 0) then .ok (top :: rest)
     else if blankOutOfRange tc top.entries.length then .panic "index out of bounds: entries"
     else
-      .ok (⟨clockBlank tc 0 top.entries, top.line, false⟩ :: ⟨clockBlank tc 1 top.entries, top.line, false⟩ ::
-           ⟨clockLow tc 0 top.entries, top.line, top.upd⟩ :: rest)
+      .ok (⟨clockBlank tc 0 top.entries, top.line, false, top.xcols⟩ :: ⟨clockBlank tc 1 top.entries, top.line, false, top.xcols⟩ ::
+           ⟨clockLow tc 0 top.entries, top.line, top.upd, top.xcols⟩ :: rest)
 
 /-- the part of `get_row` that works on the row stack: `expand_x`, `expand_c`, `pop` -/
 def popRow (tc : TestCase) (cache : List CRow) : Res IterErr (CRow × List CRow) :=
@@ -302,13 +302,15 @@ def inputFor (tc : TestCase) (entries : List REntry) (changed : List Bool) (i : 
 def genInputs (tc : TestCase) (entries : List REntry) (changed : List Bool) : Res IterErr (List InEntry) :=
   mapRes (inputFor tc entries changed) tc.inIdx
 
-/-- one entry of `generate_expected_entries` -/
-def expectedFor (tc : TestCase) (entries : List REntry) (i : EIdx) : Res IterErr ExpEntry :=
+/-- one entry of `generate_expected_entries`; a column whose `X` was expanded for the input side (`xcols`) still holds
+the row's `X` for the expected side -/
+def expectedFor (tc : TestCase) (entries : List REntry) (xcols : List Nat) (i : EIdx) : Res IterErr ExpEntry :=
   match i with
   | .entry col sig =>
     match tc.signals[sig]? with
     | none => .panic "index out of bounds: signals"
     | some s =>
+      if xcols.contains col then .ok ⟨sig, .x⟩ else
       match entries[col]? with
       | none => .panic "index out of bounds: entries"
       | some (.num n) => .ok ⟨sig, .val (n &&& bitMask s.bits)⟩
@@ -321,8 +323,8 @@ def expectedFor (tc : TestCase) (entries : List REntry) (i : EIdx) : Res IterErr
     | some _ => .ok ⟨sig, .x⟩
 
 /-- `generate_expected_entries` -/
-def genExpected (tc : TestCase) (entries : List REntry) : Res IterErr (List ExpEntry) :=
-  mapRes (expectedFor tc entries) tc.expIdx
+def genExpected (tc : TestCase) (entries : List REntry) (xcols : List Nat) : Res IterErr (List ExpEntry) :=
+  mapRes (expectedFor tc entries xcols) tc.expIdx
 
 /-- `EvaluatedRow` -/
 structure EvRow where
@@ -365,7 +367,7 @@ def getRow (tc : TestCase) (fuel : Nat) (s : RowIt) : GetRowRes :=
       | .err _ => .panic "unreachable"
       | .panic m => .panic m
       | .ok inputs =>
-        match genExpected tc top.entries with
+        match genExpected tc top.entries top.xcols with
         | .err _ => .panic "unreachable"
         | .panic m => .panic m
         | .ok expected =>
